@@ -12,6 +12,7 @@ import Driver.C10
 import Driver.C20
 import Driver.C02
 import Driver.C19
+import Driver.C06
 open Lean
 
 namespace Driver
@@ -30,6 +31,7 @@ def dispatch (op : String) (j : Json) : Except String Json :=
   else if op.startsWith "c20." then C20.handle op j
   else if op.startsWith "c02." then C02.handle op j
   else if op.startsWith "c19." then C19.handle op j
+  else if op.startsWith "c06." then C06.handle op j
   else throw s!"unknown op {op}"
 
 def handleLine (line : String) : String :=
